@@ -52,10 +52,24 @@
     the arrangement, which baseline each run uses - is still demanded.
     Model: [arrangement_model] (order maps + Model/Sort.v's [val_less]).
 
+    A fifth case kind (tag 10, "big-table"; harness/cmd/gen/c15big.go): one
+    input whose tables have >= 1024 rows, run through the real binary at
+    GOMAXPROCS 1, 2, 4, 16 in -format csv (the geomean row at full precision)
+    and text, repeatedly, and through the -race build.  The case carries the
+    standard output and standard error of EVERY run; the comparison is made
+    here: all runs of one format print the same bytes (the csv warning stream
+    too), no run reports a data race, every GOMAXPROCS setting occurs among
+    the csv runs.  Model: the csv records and warnings are the rendering
+    (Model/Render.v, through Corr/RunC16.v) of the tables built in process.
+
+    Cells of 256..600 measurements arriving unsorted (c15big.go, "big-sample")
+    use the third case kind: variants = the input as given, the same input
+    again, its lines reversed, shuffled; p-values compared bit for bit.
+
     Repeated runs: every kind demands a minimum number of runs compared byte
     for byte ([min_runs]; 2 for the in-process sequence: the stand-alone run and
     the run inside the sequence). *)
-From Perf Require Import Base.Bytes Base.Sx Base.B64 Base.SxF Model.BenchTab Model.Render Model.SampleSort Model.ArrangeSpec.
+From Perf Require Import Base.Bytes Base.Sx Base.B64 Base.SxF Model.BenchTab Model.Render Model.RenderRun Model.SampleSort Model.ArrangeSpec.
 From Perf Require Corr.RunC14 Corr.RunC16.
 
 Record cellobs := mkCO {
@@ -415,8 +429,64 @@ Section Perm.
   Definition corr_ok_p (c : pcase) : bool := arr_model_ok (p_a c) && arr_model_ok (p_b c).
 End Perm.
 
+(** * big tables: every run's bytes, compared here (kind 10) *)
+Record grun := mkGR { gr_procs : N; gr_csv : bool; gr_race : bool; gr_out : bytes; gr_err : bytes }.
+Record gcase := mkGC {
+  g_rows : N; g_fields : list bytes; g_tabs : list (list bytes * rtable);
+  g_recs : list (list bytes); g_runs : list grun }.
+
+Definition as_grun (s : sx) : option grun :=
+  match s with
+  | SL [p; c; r; SB out; SB err] =>
+      do p <- as_N p; do c <- as_bool c; do r <- as_bool r; Some (mkGR p c r out err)
+  | _ => None
+  end.
+Definition decode_g (s : sx) : option gcase :=
+  match s with
+  | SL [SZ 10; rows; kf; tabs; recs; runs] =>
+      do rows <- as_N rows; do kf <- as_list as_b kf;
+      do tabs <- as_list (as_pair (as_list as_b) RunC16.as_rtable) tabs;
+      do recs <- as_list (as_list as_b) recs; do runs <- as_list as_grun runs;
+      Some (mkGC rows kf tabs recs runs)
+  | _ => None
+  end.
+
+Definition big_rows : N := 1024.
+Definition race_report : bytes := bs "DATA RACE".
+(** the reference run of a format: the first run of the plain binary in it *)
+Definition ref_run (c : gcase) (csv : bool) : option grun :=
+  find (fun r => Bool.eqb (gr_csv r) csv && negb (gr_race r)) (g_runs c).
+Definition grun_same (c : gcase) (r : grun) : bool :=
+  match ref_run c (gr_csv r) with
+  | Some r0 => beq (gr_out r) (gr_out r0)
+               (* the warning stream of the plain binary; the race build's standard
+                  error is only searched for a report *)
+               && (gr_race r || beq (gr_err r) (gr_err r0))
+  | None => false
+  end.
+Definition plain_csv (c : gcase) : list grun := filter (fun r => gr_csv r && negb (gr_race r)) (g_runs c).
+Definition prop_ok_g (c : gcase) : bool :=
+  forallb (fun r => negb (contains (gr_err r) race_report)) (g_runs c)
+  && forallb (grun_same c) (g_runs c)
+  && (min_runs <=? N.of_nat (length (plain_csv c)))%N
+  && forallb (fun p => existsb (fun r => (gr_procs r =? p)%N) (plain_csv c)) [1; 2; 4; 16]%N
+  && existsb gr_race (g_runs c)
+  && (big_rows <=? g_rows c)%N && (g_rows c <=? N.of_nat (length (g_recs c)))%N.
+Definition corr_ok_g (c : gcase) : bool :=
+  (* the csv half of the rendering model (the text layout of a table of this
+     size is left to C16's own cases) *)
+  match ref_run c true with
+  | Some r0 => RunC16.corr_ok (RunC16.KCsvTables (Model.RenderRun.run_tabs (g_fields c) (g_tabs c)) (g_recs c) (gr_err r0))
+  | None => false
+  end.
+
 Definition run_case (s : sx) : N :=
   match s with
+  | SL (SZ 10 :: _) =>
+      match decode_g s with
+      | Some c => code_of (corr_ok_g c) (prop_ok_g c)
+      | None => code_undecodable
+      end
   | SL (SZ 9 :: _) =>
       match decode_p s with
       | Some c => code_of3 (corr_ok_p c) (prop_ok_p c) (known_ok_p c)
